@@ -226,7 +226,7 @@ fn helper_op(rng: &mut Rng, fresh: bool) -> Op {
 /// A family of related operations, shaped so that state leaking from one call to another would show.
 fn family(rng: &mut Rng, corpus: &Corpus, deep_levels: (usize, usize), out: &mut Vec<Op>) -> &'static str {
     let fresh = rng.chance(1, 4);
-    match rng.weighted(&[14, 14, 10, 8, 8, 8, 6, 6, 5, 5, 6, 2, 6, 6, 6, 3]) {
+    match rng.weighted(&[14, 14, 10, 8, 8, 8, 6, 6, 5, 5, 6, 2, 6, 6, 6, 3, 6]) {
         0 => {
             // same rule x different data (corpus rule)
             let (r, d) = rng.pick(&corpus.cases).clone();
@@ -524,6 +524,49 @@ fn family(rng: &mut Rng, corpus: &Corpus, deep_levels: (usize, usize), out: &mut
                 out.push(Op::apply(&t(&json!({ op: [{"var": "xs"}, body] })), &d, rng.chance(1, 5)));
             }
             "big-collection-iteration"
+        }
+        16 => {
+            // near-collision inputs, back to back through the same operator: same length and same ends
+            // but a different middle, case variants, padded variants, 1 vs 1.0, 0 vs -0.0 (interning
+            // tables, hash-only keys, normalising caches)
+            let base = *rng.pick(&["customer_name", "path.to.value", "abcdefgh", "Order-2024-0001", "kéy_with_é", "0123456789", "items.0.price"]);
+            let chars: Vec<char> = base.chars().collect();
+            let mid = chars.len() / 2;
+            let mut v1 = chars.clone();
+            v1[mid] = if v1[mid] == 'x' { 'y' } else { 'x' };
+            let mut v2 = chars.clone();
+            v2.swap(mid - 1, mid + 1);
+            let variants: Vec<String> = vec![
+                base.to_string(),
+                v1.iter().collect(),
+                v2.iter().collect(),
+                base.to_uppercase(),
+                format!(" {}", base),
+                format!("{} ", base),
+                base.chars().rev().collect(),
+            ];
+            let mut dm = serde_json::Map::new();
+            for (i, k) in variants.iter().enumerate() {
+                dm.insert(k.clone(), json!(i));
+            }
+            dm.insert("n".into(), json!([1, 1.0, 0, -0.0, 10, 1e1]));
+            let dt = t(&Value::Object(dm));
+            let shape = rng.below(6);
+            let n = rng.range(3, 6);
+            for _ in 0..n {
+                let a = rng.pick(&variants).clone();
+                let b = rng.pick(&variants).clone();
+                let r = match shape {
+                    0 => json!({"var": a.replace('.', "\\.")}),
+                    1 => json!({"cat": [a, "|", b]}),
+                    2 => json!({"==": [a, b]}),
+                    3 => json!({"in": [a, [b, "zz"]]}),
+                    4 => json!({"missing": [a.replace('.', "\\."), b.replace('.', "\\.")]}),
+                    _ => json!({"===": [*rng.pick(&[json!(1), json!(1.0), json!(0), json!(-0.0), json!(10), json!(1e1)]), {"var": format!("n.{}", rng.below(6))}]}),
+                };
+                out.push(Op::apply(&t(&r), &dt, rng.chance(1, 4)));
+            }
+            "near-collision-inputs"
         }
         _ => {
             // structurally equal values at distinct addresses: same texts, one shared, one fresh
